@@ -238,8 +238,11 @@ func NativeToOvs(column *ColumnSchema, rawElem interface{}) (interface{}, error)
 	}
 
 	switch column.Type {
-	case TypeInteger, TypeReal, TypeString, TypeBoolean, TypeEnum:
+	case TypeInteger, TypeReal, TypeString, TypeBoolean:
 		return rawElem, nil
+	case TypeEnum:
+		// an enum holds a value of its key type: a uuid takes its wire form
+		return NativeToOvsAtomic(column.TypeObj.Key.Type, rawElem)
 	case TypeUUID:
 		return UUID{GoUUID: rawElem.(string)}, nil
 	case TypeSet:
